@@ -762,9 +762,11 @@ def runSection (r : Report) (s : Section) : Report := Id.run do
         let sv := Spec.rawAddVerdict (st.ttbl.map (·.pats)) p item
         if sv ≠ joinSp l.obs then
           r := r.violation s.idx l.idx s!"Tree.Add {p}: the rule for raw routes demands [{sv}] implementation did [{joinSp l.obs}]"
-        match res with
-        | .ok t => st := { st with tree := t }
-        | .error _ => pure ()
+        -- the REAL tree after the call (a failing Add may leave item-less nodes: PropsReject.treeAddM_spec)
+        let treeM := treeAddM st.tree p item
+        if treeM.2.isSome ∧ treeM.1.lits.length + treeM.1.vars.length > st.tree.lits.length + st.tree.vars.length then
+          r := r.addCover "tadd-failed-add-left-an-item-less-node-behind"
+        st := { st with tree := treeM.1 }
         if sv = "ok" then
           for c in prefixClass (st.ttbl.map (·.pats)) (Spec.rawKey p) do r := r.addCover ("tadd-" ++ c)
         match sv, item with
